@@ -40,7 +40,7 @@ def main():
     ap.add_argument("--tier", default="quick")
     ap.add_argument("--skip-tests", action="store_true")
     a = ap.parse_args()
-    seed = Path(a.seed_dir)
+    seed = Path(a.seed_dir).resolve()
     checks = (a.checks or a.property_id).split(",")
     wt = tempfile.mkdtemp(prefix="verif_seed_eval.")
     os.rmdir(wt)
@@ -87,11 +87,17 @@ def main():
     dst = ROOT / "seeded" / a.name
     dst.mkdir(parents=True, exist_ok=True)
     for f in ("patch.diff", "demo.py", "notes.md"):
-        if (seed / f).exists():
+        if (seed / f).exists() and (seed / f).resolve() != (dst / f).resolve():
             shutil.copy(seed / f, dst / f)
     notes = (seed / "notes.md").read_text() if (seed / "notes.md").exists() else ""
     meta["needs_to_manifest"] = notes.strip()[:1500]
     meta["ran"] = [f"pytest tests -n 8 (with patch)", "demo.py with and without patch"] + [f"./check {c} {a.tier} (VERIF_REPO_SRC=patched copy)" for c in checks]
+    old = json.loads((dst / "meta.json").read_text()) if (dst / "meta.json").exists() else {}
+    if a.skip_tests:  # keep the earlier confirmation of the test-suite run
+        for k in ("tests_with_patch", "tests_pass_with_patch"):
+            if k in old:
+                meta[k] = old[k]
+        meta["confirmed"] = bool(meta.get("tests_pass_with_patch", False) and meta["demo_with_patch_exit"] != 0 and meta["demo_without_patch_exit"] == 0)
     (dst / "meta.json").write_text(json.dumps(meta, indent=1))
     print(json.dumps({k: v for k, v in meta.items() if k != "needs_to_manifest"}, indent=1))
     return 0
